@@ -249,6 +249,7 @@ def encoder_table(mod, runner_mod=None):
     for f, argorigin in fns.items():
         hooks = EncHooks()
         C = Contracts(mod, hooks)
+        C.I.ctx.limits['partition_small_consts'] = True
         res = C.run(f, only=lambda l: l == 'wok')
         rows = []
         for (label, outs) in res:
